@@ -121,7 +121,7 @@ EX = {(L, k): make_exhaustive(L, k) for (L, k) in [(1, 1), (1, 2), (2, 1), (2, 2
 
 
 def random_case(ctx, idx, rng):
-    L = int(rng.choice([1, 1, 2, 3, 4, 5, 6, 7, 8]))
+    L = int(rng.choice([1, 1, 2, 3, 4, 5, 6, 7, 8, 12, 20, 30]))
     kind = str(rng.choice(['few', 'many', 'single', 'cancelling', 'gaussian', 'charged', 'identity-heavy']))
     nops = int(rng.integers(1, 4))
     n = {'few': int(rng.integers(1, 6)), 'many': int(rng.integers(10, 41)), 'single': 1}.get(kind, int(rng.integers(2, 12)))
@@ -150,7 +150,7 @@ def random_case(ctx, idx, rng):
     if not any(c.coeff != 0 for c in chains):
         chains[0].coeff = 1.0
     zero_sum = not refs.chains_poly(chains, L, oid_id0)
-    ctx.case(('random', kind, f'L{min(L, 4)}', f'ops{nops}', 'sum-zero' if zero_sum else 'sum-nonzero', 'ids-default' if pool is None else f'ids{pool}'), nontrivial=True,
+    ctx.case(('random', kind, f'L{min(L, 4) if L <= 8 else "long"}', f'ops{nops}', 'sum-zero' if zero_sum else 'sum-nonzero', 'ids-default' if pool is None else f'ids{pool}'), nontrivial=True,
              sample={'L': L, 'chains': [(c.oids, c.qnums, c.coeff, c.istart) for c in chains[:8]]},
              info={'L': L, 'chains': [(c.oids, c.qnums, c.coeff, c.istart) for c in chains]})
     g = check_chain_list(ctx, chains, L, oid_id0, exact=exact)
